@@ -85,6 +85,12 @@ def run(c):
     n_sh, n_sops = (24, 150) if quick else (300, 300)
     sst = sc.stock_monitor_check(c, "C02", monitor, [sc.gen_stock_history(c.rng, n_sops) for _ in range(n_sh)], exe, fws,
                                  "WellFormed(view)")
+    # …and the table translator with the phrase encoder and a live user dictionary (cangjie5's component list): candidates are
+    # learnt from commits in a row and deleted again, so the menu under the highlight is rebuilt between two reads
+    tws = c1.make_table_workspace(os.path.join(c.work, "tws"))
+    n_th = 12 if quick else 150
+    tst = sc.stock_monitor_check(c, "C02", monitor, c1.table_directed_histories() + [c1.gen_table_history(c.rng, n_sops) for _ in range(n_th)],
+                                 exe, tws, "WellFormed(view)", sid="vs_cjfull")
     if not audit["ok"] and not c.violations:
         c.report("C02:proof", "proof obligation no longer checks: %s" % "; ".join("%s: %s" % f for f in audit["failures"])[:600],
                  {"kind": "proof", "broken_theorems": audit["failures"], "lean_log": audit["log"][-3000:]}, no_input=True)
@@ -96,7 +102,7 @@ def run(c):
                 "observations_with_menu": stats["menus"], "observations_composing": stats["composing"],
                 "commits_read": stats["commits"], "model_impl_disagreements": stats["diffs"],
                 "monitor_violations": stats["violations"], "sanitizer_aborts": stats["crashes"],
-                "proof_failures": audit["failures"], "stock_component_monitoring": sst,
+                "proof_failures": audit["failures"], "stock_component_monitoring": sst, "table_translator_monitoring": tst,
                 "per_schema": stats["schemas"], "punctuator_schemas": stats["punct"]})
     if not quick:
         # how much of the C++ the model ports do the correspondence scripts of this run execute (gcov build; measurement, not a verdict)
